@@ -40,6 +40,19 @@ def buildTrie (c : Cls) (T : Table) : Trie TVal :=
   let t0 := KEYWORDS.foldl (fun t k => t.addD c k.spelling (.kw k)) Trie.empty
   (T.foldl (addEntry c) t0).makeAutomaton
 
+/-! the same additions as a list (what `buildTrie` stores, in order; `buildTrie_adds` in Lemmas/Alone) -/
+
+def symVal (e : Entry) : TVal := .sym ⟨e.key, e.exc⟩
+
+/-- the additions `get_advanced_tokenizer` makes for one entry: the key, then each non-empty alias with
+    its blanks collapsed -/
+def entryAdds (c : Cls) (e : Entry) : List (Str × TVal) :=
+  (e.key, symVal e) :: (e.aliases.filter (fun a => !a.isEmpty)).map (fun a => (collapse c a, symVal e))
+
+/-- all additions, in order: the keywords, then the entries -/
+def addsOf (c : Cls) (T : Table) : List (Str × TVal) :=
+  KEYWORDS.map (fun k => (k.spelling, TVal.kw k)) ++ T.flatMap (entryAdds c)
+
 /-- token value between the stages -/
 inductive SVal where
   | none
